@@ -25,6 +25,7 @@ from circuits.web.events import request as request_ev
 from circuits.web.dispatchers import static as static_mod
 from circuits.web.dispatchers.static import Static
 from circuits.web import utils as web_utils
+from circuits.web import url as url_mod, http as http_mod, wrappers as wrappers_mod
 from circuits.web.exceptions import RangeUnsatisfiable
 
 # ----------------------------------------------------------------------------- file-system layouts
@@ -276,6 +277,36 @@ def run_request(lay, mount, dirlisting, mode, path, range_hdr=None, proto='1.1')
 
     for n, fn in saved.items():
         setattr(os.path, n, rec_fs(fn))
+    fe = {'q': [], 'u': [], 'reqs': []}
+    saved_fe = (wrappers_mod.Request, url_mod.quote, url_mod.unquote, http_mod.quote)
+
+    def rec_tbl(fn, tbl):
+        def w(x, *a, **kw):
+            r = fn(x, *a, **kw)
+            if isinstance(x, str) and isinstance(r, str) and not a and not kw and [x, r] not in tbl:
+                tbl.append([x, r])
+            return r
+        return w
+
+    class RecRequest(saved_fe[0]):
+        def __init__(self, sock, *a, **kw):
+            rec = {'path': a[2]} if len(a) >= 3 else None      # the request built from the parsed request line
+            if rec is not None:
+                fe['reqs'].append(rec)
+            try:
+                super().__init__(sock, *a, **kw)
+            except Exception as e:
+                if rec is not None:
+                    rec['raised'] = type(e).__name__
+                raise
+            if rec is not None:
+                rec['san'] = self.uri._path.decode('utf-8')
+
+    if mode == 'http':
+        wrappers_mod.Request = RecRequest
+        url_mod.quote = rec_tbl(saved_fe[1], fe['q'])
+        url_mod.unquote = rec_tbl(saved_fe[2], fe['u'])
+        http_mod.quote = rec_tbl(saved_fe[3], fe['q'])
     _audit['opened'], _audit['listed'] = [], []
     _audit['on'] = True
     try:
@@ -298,12 +329,13 @@ def run_request(lay, mount, dirlisting, mode, path, range_hdr=None, proto='1.1')
     finally:
         _audit['on'] = False
         static_mod.unquote = orig_unquote
+        wrappers_mod.Request, url_mod.quote, url_mod.unquote, http_mod.quote = saved_fe
         for n, fn in saved.items():
             setattr(os.path, n, fn)
     r = parse_response(b''.join(probe.out))
     fs = [[p, os.path.exists(p), os.path.isfile(p), os.path.isdir(p)] for p in asked]
     return {'resp': r, 'opened': list(_audit['opened']), 'listed': list(_audit['listed']), 'unq': calls,
-            'seen': list(probe.seen), 'fs': fs}
+            'seen': list(probe.seen), 'fs': fs, 'fe': fe}
 
 
 # ----------------------------------------------------------------------------- independent reading of the property
@@ -366,7 +398,7 @@ def spec_ranges(hdr, size, lenient=False):
 
 HOSTILE = ['..', '.', '', '%2e%2e', '%2E%2E', '%252e%252e', '..%2f', '%2f', '%2F..', '..%2F..', '..\\', '\\..\\',
            '%5c..', '..%5c', '%00', '%c0%af', '....', '...', '..;', '%2e', '%2e.', '.%2e', '~', '%', '%zz', '%2',
-           '..%00', '%252f', '%25252e%25252e']
+           '..%00', '%252f', '%25252e%25252e', ';x', 'a;b', ';', '..;x=1', 'caf\u00e9', '%C3%A9', 'x;..', '.;']
 BENIGN = {
     'L0': ['a.txt', 'sub', 'b.txt', 'deep', 'c.txt', 'idx', 'idx2', 'index.html', 'dirindex', 'sp ace.txt', 'sp%20ace.txt',
            '%252e%252e', 'x.txt', '.hidden', 'b\\c.txt', 'b%5Cc.txt', 'empty', 'root', 'root-extra', 's.txt',
@@ -522,7 +554,9 @@ class C16(Prop):
                 mount = rng.choice(MOUNTS)
                 mode = 'direct' if rng.random() < 0.6 else 'http'
                 path = gen_path(rng, lay, mount)
-                if mode == 'http' and not ascii_token(path):
+                if mode == 'direct' and any(ord(ch) > 127 for ch in path):
+                    path = _std_quote(path, safe="/%\\~;. ")      # Request() itself cannot carry raw non-ASCII
+                if mode == 'http' and not ascii_token(path) and (' ' in path or rng.random() < 0.5):
                     path = _std_quote(path, safe="/%\\~;.")
                 cases.append({'k': 'path', 'lay': lay, 'mount': mount, 'mode': mode, 'path': path,
                               'listing': rng.random() < 0.5})
@@ -560,7 +594,7 @@ class C16(Prop):
         st = r['status'] if r else None
         self.stats['statuses'][str(st)] = self.stats['statuses'].get(str(st), 0) + 1
         out = {'status': st, 'opened': o['opened'], 'listed': o['listed'], 'unq': o['unq'], 'seen': o['seen'],
-               'fs': o['fs']}
+               'fs': o['fs'], 'fe': o['fe']}
         if r:
             out['extra'] = r['extra']
             out['ctype'] = r['headers'].get('content-type', '')
@@ -650,9 +684,11 @@ class C16(Prop):
             return 'obs_range %s %s %s' % ('true' if c['proto'] == '1.1' else 'false', hv(c['hdr']), '%d%%N' % c['size'])
         if c['mode'] == 'direct':
             return self._path_term(c, c['path'], o)
-        if len(o['seen']) == 1:      # the front end let the request through: the dispatcher saw this path
-            return self._path_term(c, o['seen'][0], o)
-        return None
+        fe = o['fe']
+        if len(fe['reqs']) != 1:     # the parser rejected the request line (or pipelining): no front-end decision
+            return None
+        tb = lambda t: '[%s]' % '; '.join('(%s, %s)' % (nlist(a), nlist(b)) for a, b in t)
+        return 'obs_http %s %s %s' % (tb(fe['q']), tb(fe['u']), self._path_term(c, fe['reqs'][0]['path'], o)[len('obs_path '):])
 
     def obs_for_model(self, c, obs):
         if isinstance(obs, dict) and '__crash__' in obs:
@@ -662,6 +698,24 @@ class C16(Prop):
             return obs['fn']
         if k == 'range':
             return obs['obs']['m'] if 'obs' in obs else [-998]
+        st = obs['status']
+        if c['mode'] == 'http':
+            reqs = obs['fe']['reqs']
+            if len(reqs) != 1:
+                return [-996]
+            r0 = reqs[0]
+            if 'raised' in r0:
+                return [[2], [0]]
+            if obs['seen'] == [r0['path']]:
+                few = [1, r0['path'], r0['san']]
+            elif st == 301 and not obs['seen']:
+                return [[0, r0['san']], [0]]
+            else:
+                return [[-995, st if st is not None else -1], [0]]
+            return [few, self._static_tag(obs)]
+        return self._static_tag(obs)
+
+    def _static_tag(self, obs):
         st = obs['status']
         if st == 200 and obs['opened'] and not obs['listed']:
             tag = [1, obs['opened'][0]]
@@ -698,9 +752,12 @@ class C16(Prop):
         if obs['marker']:
             return 'response carries content planted outside the document root: %r' % (obs['body'] or '')[:60]
         same = lambda content: hashlib.sha1(content).hexdigest() == obs['sha']
-        if st >= 500:
+        fe_raised = c['mode'] == 'http' and any('raised' in r for r in obs['fe']['reqs'])
+        if st >= 500 and not (fe_raised and not obs['opened'] and not obs['listed'] and not obs['seen']):
+            # (a request target the front end itself chokes on - raw non-ASCII - never reaches the dispatcher;
+            #  how that error is reported is C14's business)
             return 'internal error %d' % st
-        if st in (301, 302, 303, 307, 308, 400, 404):
+        if st >= 500 or st in (301, 302, 303, 307, 308, 400, 404):
             return None
         if st != 200:
             return 'unexpected status %d' % st
@@ -733,6 +790,15 @@ class C16(Prop):
                            if x != '..')
             if shown != names:
                 return 'listing shows %r, directory %s holds %r' % (shown, target, names)
+            # every link of the listing (entries and the '..' link), requested as it stands, stays inside the root
+            for href, text in re.findall(r'<a href="([^"]*)">([^<]*)</a>', obs['body'] or ''):
+                href = unescape(href)
+                out = resolve(root, None, href) is None or (
+                    c['mount'] is not None and href.startswith(c['mount']) and resolve(root, c['mount'], href) is None)
+                if out:
+                    tag = 'uplink: ' if (text == '..' and target == root) else ''
+                    return '%slisting of %s links to %r, which leaves the document root' % (tag, target, href)
+            self.stats['hrefs_checked'] = self.stats.get('hrefs_checked', 0) + 1
             return None
         return 'content served for %s, which does not exist' % target
 
@@ -793,6 +859,12 @@ class C16(Prop):
         elif fn[0] == 2:
             if not (isinstance(spec, list) and len(set(spec)) > 1):
                 return 'get_ranges(%r, %d) raised RangeUnsatisfiable' % (c['hdr'], size)
+        return None
+
+    def finding_class(self, c, obs, what):
+        # the '..' link of a listing of the document root itself, reached through a non-empty path
+        if what.startswith('uplink: ') and c['k'] == 'path' and c['listing']:
+            return 'C16-root-listing-uplink'
         return None
 
     def nontrivial(self, c, obs):
